@@ -187,8 +187,8 @@ const (
 )
 
 type flushAnalyser struct {
-	p        *core.Program
-	declOf   map[*types.Func]struct {
+	p      *core.Program
+	declOf map[*types.Func]struct {
 		pk *packages.Package
 		fd *ast.FuncDecl
 	}
